@@ -59,11 +59,20 @@ type Trigger struct {
 	Constraint bool
 }
 
+type ForeignKey struct {
+	Name     string
+	Cols     []string
+	RefTable string
+	RefCols  []string
+	// OnDelete: "" (no action / restrict) or "cascade"
+	OnDelete string
+}
+
 type TableDef struct {
 	Name   string
 	Cols   []*Column
 	Checks []*Check
-	FKs    []string // descriptions of remaining foreign keys
+	FKs    []*ForeignKey
 }
 
 type Function struct {
@@ -125,6 +134,9 @@ func (s *FoldedSchema) table(name string) *TableDef {
 	}
 	return nil
 }
+
+// Table returns the table with the given name, or nil.
+func (s *FoldedSchema) Table(name string) *TableDef { return s.table(name) }
 
 func (t *TableDef) col(name string) *Column {
 	for _, c := range t.Cols {
@@ -609,6 +621,38 @@ func (s *FoldedSchema) foldCreateTable(ts *tokStream, name string) {
 	s.Tables = append(s.Tables, t)
 }
 
+// refActions parses `[ON DELETE a] [ON UPDATE a]` and returns the ON DELETE action.
+func (s *FoldedSchema) refActions(pts *tokStream) string {
+	onDelete := ""
+	for pts.isKw("on") {
+		pts.next()
+		which := pts.next().Text
+		action := pts.next().Text
+		switch action {
+		case "cascade", "restrict":
+		case "no":
+			pts.expectKw("action")
+			action = ""
+		case "set":
+			s.fail(pts.sql, "referential action SET … is not modelled")
+		default:
+			s.fail(pts.sql, "unsupported referential action %s", action)
+		}
+		if action == "restrict" {
+			action = ""
+		}
+		if which == "delete" {
+			onDelete = action
+		} else if action != "" {
+			s.fail(pts.sql, "ON UPDATE %s is not modelled", action)
+		}
+	}
+	for pts.isKw("deferrable") || pts.isKw("initially") || pts.isKw("deferred") || pts.isKw("immediate") || (pts.isKw("not") && pts.peekAt(1).Text == "deferrable") {
+		pts.next()
+	}
+	return onDelete
+}
+
 func (s *FoldedSchema) foldColumnConstraints(pts *tokStream, t *TableDef, col *Column) {
 	sql := pts.sql
 	for pts.peek().Kind != TEOF {
@@ -647,11 +691,13 @@ func (s *FoldedSchema) foldColumnConstraints(pts *tokStream, t *TableDef, col *C
 		case pts.acceptKw("unique"):
 			s.addIndex(&Index{Name: t.Name + "_" + col.Name + "_key", Table: t.Name, Unique: true, Cols: []string{col.Name}})
 		case pts.acceptKw("references"):
-			ref := pts.name()
+			fk := &ForeignKey{Name: t.Name + "_" + col.Name + "_fkey", Cols: []string{col.Name}}
+			fk.RefTable = pts.name()
 			if pts.isOp("(") {
-				pts.balanced()
+				fk.RefCols = identsIn(pts.balanced())
 			}
-			t.FKs = append(t.FKs, fmt.Sprintf("%s.%s -> %s", t.Name, col.Name, ref))
+			fk.OnDelete = s.refActions(pts)
+			t.FKs = append(t.FKs, fk)
 		default:
 			s.fail(sql, "unsupported column constraint %s on %s.%s", pts.peek(), t.Name, col.Name)
 		}
@@ -676,11 +722,16 @@ func (s *FoldedSchema) foldTableConstraint(pts *tokStream, t *TableDef) {
 	case pts.acceptKw("foreign", "key"):
 		cols := identsIn(pts.balanced())
 		pts.expectKw("references")
-		ref := pts.name()
-		if pts.isOp("(") {
-			pts.balanced()
+		fk := &ForeignKey{Name: cname, Cols: cols}
+		if fk.Name == "" {
+			fk.Name = t.Name + "_" + strings.Join(cols, "_") + "_fkey"
 		}
-		t.FKs = append(t.FKs, fmt.Sprintf("%s(%s) -> %s", t.Name, strings.Join(cols, ","), ref))
+		fk.RefTable = pts.name()
+		if pts.isOp("(") {
+			fk.RefCols = identsIn(pts.balanced())
+		}
+		fk.OnDelete = s.refActions(pts)
+		t.FKs = append(t.FKs, fk)
 	case pts.acceptKw("primary", "key"):
 		if pts.acceptKw("using", "index") {
 			iname := pts.ident()
@@ -925,7 +976,34 @@ func (s *FoldedSchema) foldDrop(ts *tokStream) {
 		ts.acceptKw("if", "exists")
 		name := ts.name()
 		if s.table(name) != nil {
-			s.fail(sql, "DROP TABLE of tracked table %s is not modelled", name)
+			for _, ot := range s.Tables {
+				for _, fk := range ot.FKs {
+					if fk.RefTable == name && ot.Name != name {
+						s.fail(sql, "DROP TABLE %s: still referenced by %s", name, fk.Name)
+					}
+				}
+			}
+			var tk []*TableDef
+			for _, t := range s.Tables {
+				if t.Name != name {
+					tk = append(tk, t)
+				}
+			}
+			s.Tables = tk
+			var ik []*Index
+			for _, i := range s.Indexes {
+				if i.Table != name {
+					ik = append(ik, i)
+				}
+			}
+			s.Indexes = ik
+			var trk []*Trigger
+			for _, tr := range s.Triggers {
+				if tr.Table != name {
+					trk = append(trk, tr)
+				}
+			}
+			s.Triggers = trk
 		}
 	case ts.acceptKw("type"):
 		s.fail(sql, "DROP TYPE is not modelled")
@@ -986,19 +1064,38 @@ func (s *FoldedSchema) dropColumn(t *TableDef, col string, sql string) {
 		}
 	}
 	t.Checks = ck
-	var fks []string
+	contains := func(xs []string, x string) bool {
+		for _, y := range xs {
+			if y == x {
+				return true
+			}
+		}
+		return false
+	}
+	var fks []*ForeignKey
 	for _, fk := range t.FKs {
-		if strings.HasPrefix(fk, t.Name+"."+col+" ") || strings.Contains(fk, "("+col+")") {
+		if contains(fk.Cols, col) {
 			continue
 		}
 		fks = append(fks, fk)
 	}
 	t.FKs = fks
-	// foreign keys of other tables referencing this table's dropped key column
+	// foreign keys of other tables that reference the dropped column (its unique
+	// index goes away, and with it the constraints depending on it)
 	for _, ot := range s.Tables {
-		var ofk []string
+		var ofk []*ForeignKey
 		for _, fk := range ot.FKs {
-			if strings.HasSuffix(fk, "-> "+t.Name) && col == "seq" {
+			refCols := fk.RefCols
+			if len(refCols) == 0 {
+				// references the primary key
+				for _, idx := range s.Indexes {
+					if idx.Table == fk.RefTable && idx.Primary {
+						refCols = idx.Cols
+					}
+				}
+			}
+			if fk.RefTable == t.Name && contains(refCols, col) {
+				s.note("foreign key %s dropped with column %s.%s", fk.Name, t.Name, col)
 				continue
 			}
 			ofk = append(ofk, fk)
